@@ -261,6 +261,116 @@ def search_c02(results, tier, seed, broken):
                   "rule": "satisfying programs with exactly one linear constraint broken (any position, both phases, by 1, -1 or random) or one first-phase gate overwritten through hook H2 with o = l*r + delta; the model's sat flag confirms the violation; an acceptance is a hit"}
 
 
+# ------------------------------------------------------------------ C13 / C17 / C09
+def search_c13(results, tier, seed, broken):
+    hits, n, nontriv = [], 0, set()
+    for comp, streams, r in results:
+        if comp != "ped":
+            continue
+        for cid, im in r.impl.items():
+            n += 1
+            nontriv.add(cid)
+        for cid, code, text in r.disagreements:
+            if code in (1, 2):
+                hits.append(_hit(r, comp, streams, cid, "Pedersen commitment law fails on the real code: " + text))
+    return hits, {"searched": n, "hits": len(hits), "distinct_nontrivial": len(nontriv), "distribution": _dist(results),
+                  "rule": "values 0, 1, -1, 2^64, 2^64+-1, 2^128, 2^128-3, -2^64, -2, random u64, random field element (for v and r independently), default and random base pairs, 3 curves; each case checks commit = msm([B,B~],[v,r]) by an independent arkworks path, Prover::commit = PedersenGens::commit, homomorphism, zero, scaling, and the model's coefficient vector re-materialised over the case's bases; distinct = distinct case ids (all inputs differ)"}
+
+
+def _tagval(tag, key):
+    m = re.search(key + r"=(\S+)", tag)
+    return m.group(1) if m else None
+
+
+def search_c17(results, tier, seed, broken):
+    hits, n, nontriv, dist = [], 0, set(), Counter()
+    groups = {}
+    for comp, streams, r, cid, s, im, m in _r1cs_cases(results):
+        tag = s.get("tag", "")
+        if not tag.startswith("capgrid"):
+            continue
+        n += 1
+        pn, cp, cv = int(_tagval(tag, "pn")), int(_tagval(tag, "capp")), int(_tagval(tag, "capv"))
+        pr, vd = s.get("prover"), s.get("verdict")
+        nontriv.add((s["curve"], _tagval(tag, "grp"), cp, cv))
+        dist["prover cap%spn -> %s" % ("<" if cp < pn else ">=", pr)] += 1
+        if pr == 99 or vd == 99:
+            hits.append(_hit(r, comp, streams, cid, "panic at capacities prover=%d verifier=%d, padded size %d: %s" % (cp, cv, pn, im.get(98, ""))))
+            continue
+        if (cp < pn) != (pr == 3):
+            hits.append(_hit(r, comp, streams, cid, "prover capacity %d vs padded size %d: result code %s (InvalidGeneratorsLength expected iff capacity < padded size)" % (cp, pn, pr)))
+        if pr == 0:
+            dist["verifier cap%spn -> %s" % ("<" if cv < pn else ">=", vd)] += 1
+            if (cv < pn) != (vd == 3):
+                hits.append(_hit(r, comp, streams, cid, "verifier capacity %d vs padded size %d: verdict code %s" % (cv, pn, vd)))
+            if cv >= pn and vd != 0:
+                hits.append(_hit(r, comp, streams, cid, "honest proof rejected (verdict %s) with sufficient capacities prover=%d verifier=%d" % (vd, cp, cv)))
+            key = (s["curve"], _tagval(tag, "grp"))
+            groups.setdefault(key, []).append((cid, cp, (im.get(18) or [""])[0], r, comp, streams))
+    for key, lst in groups.items():
+        if len(set(b for _, _, b, _, _, _ in lst)) > 1:
+            cid, cp, _, r, comp, streams = lst[-1]
+            hits.append(_hit(r, comp, streams, cid, "proof bytes depend on the prover's capacity (same program, same RNG): %s" % sorted(set((c, b[:24]) for _, c, b, _, _, _ in lst))[:4]))
+    return hits, {"searched": n, "hits": len(hits), "distinct_nontrivial": len(nontriv), "distribution": dict(dist), "exhaustive": True,
+                  "rule": "exhaustive grid: (first-phase gates, second-phase gates) in 0..2 x 0..2 (thorough 0..4 x 0..4), prover capacity in {0,1,2,3,4,8} (thorough +{5,7,9,16}), verifier capacity over the same set when proving succeeds, 3 curves, real code; boundary cases (cap = n'-1, n', 2n') also through the model; distinct = distinct (curve, shape, capacities)"}
+
+
+def search_c09(results, tier, seed, broken):
+    hits, n, nontriv, dist = [], 0, set(), Counter()
+    groups = {}
+    for comp, streams, r, cid, s, im, m in _r1cs_cases(results):
+        tag = s.get("tag", "")
+        if tag.startswith("rngdet"):
+            n += 1
+            key = (s["curve"], _tagval(tag, "grp"))
+            groups.setdefault(key, {})[int(_tagval(tag, "variant"))] = (cid, im, r, comp, streams, tag)
+    # opening check: on honest / rngdet cases every proof component must open to witness part + the recorded draw
+    for comp, streams, r in results:
+        if comp != "r1cs":
+            continue
+        for cid, code, text in r.disagreements:
+            tag = r.summary.get(cid, {}).get("tag", "")
+            if (tag.startswith("honest") or tag.startswith("rngdet")) and code in (5, 6, 9):
+                hits.append(_hit(r, comp, streams, cid, "proof component does not open to (witness part + its own fresh draw from the transcript RNG): " + text))
+        for cid, s in r.summary.items():
+            if s.get("tag", "").startswith("honest"):
+                n += 1
+                nontriv.add(" ".join((r.impl.get(cid) or {}).get(5, []))[:80])
+    def comps(im):
+        pts = im.get(6) or []
+        sc = im.get(5) or []
+        return pts, sc
+    for key, g in groups.items():
+        if not all(k in g for k in (0, 1, 2, 3)):
+            continue
+        (c0, i0, r, comp, streams, tag) = g[0]
+        p0, s0 = comps(i0)
+        n2 = int(_tagval(tag, "n2")); n1 = int(_tagval(tag, "n1"))
+        nontriv.add(key)
+        if (g[1][1].get(18) != i0.get(18)):
+            hits.append(_hit(r, comp, streams, g[1][0], "same statement, same external randomness: proofs differ"))
+        for var, why in ((2, "different external randomness"), (3, "same external randomness but different commitment blinding factors")):
+            p, sc = comps(g[var][1])
+            if not p0 or not p:
+                continue
+            fixed_pts = {3, 4, 5} if n2 == 0 else set()
+            for j, (a, b) in enumerate(zip(p0, p)):
+                if j in fixed_pts:
+                    continue
+                if a == b:
+                    names = ["A_I1", "A_O1", "S1", "A_I2", "A_O2", "S2", "T_1", "T_3", "T_4", "T_5", "T_6"]
+                    hits.append(_hit(r, comp, streams, g[var][0], "%s: component %s is shared between the two proofs" % (why, names[j] if j < 11 else "L/R[%d]" % (j - 11))))
+            gate_free = (n1 + n2 == 0)
+            for j, (a, b) in enumerate(zip(s0, sc)):
+                if gate_free and j in (0, 3, 4):
+                    continue
+                if a == b:
+                    hits.append(_hit(r, comp, streams, g[var][0], "%s: scalar %s is shared between the two proofs" % (why, ["t_x", "t_x_blinding", "e_blinding", "a", "b"][j])))
+        dist["groups"] += 1
+    return hits, {"searched": n, "hits": len(hits), "distinct_nontrivial": len(nontriv), "distribution": dict(dist),
+                  "rule": "honest stream: every proof element re-derived by the model from witness + RECORDED transcript-RNG draws (full algebraic opening, all sizes); rngdet stream: each program proved with seeds (a, a, b) and with seed a but other commitment blindings: equal seeds must give identical bytes, any other pair must share no component except the statement-fixed ones (identity A_I2/A_O2/S2 without second-phase gates; t_x, a, b for gate-free circuits)"}
+
+
 PROPS = {
     "C01": {
         "prop_files": ["Properties/C01.v"], "run_files": ["Run/R1cs.v"],
@@ -283,6 +393,14 @@ PROPS = {
         "search": search_c03,
         "assumptions": ["field and module laws (hypotheses)", "challenges = oracle on the transcript history; the challenges the run inverts are non-zero (all_nz hypothesis)"],
     },
+    "C09": {
+        "prop_files": ["Properties/C09.v"], "run_files": ["Run/R1cs.v"],
+        "level": "proof",
+        "components": lambda tier: [("r1cs", ["honest", "rngdet"], {})],
+        "search": search_c09,
+        "assumptions": ["the TranscriptRng is an arbitrary stream d (its keying with external randomness and v_blindings is checked on the real code by the rngdet stream)",
+                        "simulation-based zero knowledge is NOT formalised (no probabilistic ROM framework installed)"],
+    },
     "C10": {
         "prop_files": ["Properties/C10.v"], "run_files": ["Run/Ipp.v"],
         "level": "proof",
@@ -290,6 +408,13 @@ PROPS = {
         "search": search_c10,
         "assumptions": ["scalar field laws, F-module laws for the group (hypotheses of the theorems)",
                         "challenges are a function of the transcript history (oracle); non-zero where the code inverts them"],
+    },
+    "C13": {
+        "prop_files": ["Properties/C13.v"], "run_files": ["Run/Ped.v"],
+        "level": "proof",
+        "components": lambda tier: [("ped", ["ped"], {})],
+        "search": search_c13,
+        "assumptions": ["the curve group with mul_bigint(into_bigint(.)) is an F_r-module (arkworks; sampled by K9 at edge values)"],
     },
     "C15": {
         "prop_files": ["Properties/C15.v"], "run_files": ["Run/Lc.v"],
@@ -305,5 +430,12 @@ PROPS = {
         "components": lambda tier: [("r1cs", ["cs"], {})],
         "search": search_c16,
         "assumptions": ["programs are interaction trees over the public ConstraintSystem API (no fabricated out-of-range Variables, no direct transcript challenges)"],
+    },
+    "C17": {
+        "prop_files": ["Properties/C17.v"], "run_files": ["Run/R1cs.v"],
+        "level": "proof",
+        "components": lambda tier: [("r1cs", ["capgrid"], {})],
+        "search": search_c17,
+        "assumptions": ["BulletproofGens.gens_capacity equals the length of the party-0 vectors (true for objects built by new/increase_capacity)"],
     },
 }
